@@ -120,3 +120,88 @@ def _owner(node, root):
             return n
         n = getattr(n, "_parent", None)
     return None
+
+
+# ---------------------------------------------------------------------------------------------------------------------
+# dynamic half for map_blocks' coercion of non-cubed arguments
+
+
+from pyvc import gb as _gb  # noqa: E402
+from pyvc.arrays import Dtype as _Dtype, build_array as _build_array, fresh_name as _fresh_name, make_spec as _make_spec, sym_array as _sym_array  # noqa: E402
+from pyvc.sym import PyExc as _PyExc  # noqa: E402
+
+
+class _NPLike:
+    """a non-cubed array argument (NumPy array): shape and dtype only"""
+
+    def __init__(self, shape, dtype):
+        self.shape, self.dtype, self.ndim = tuple(shape), dtype, len(shape)
+
+
+@register
+class MapBlocksCoercion(FuncSpec):
+    """map_blocks(f, *args) where one argument is a NumPy array and the other a cubed array built under an explicit
+    Spec S different from the configuration default: the call is accepted (the NumPy argument is wrapped under S, so
+    check_array_specs passes) and the result carries S — whatever the position of the NumPy argument."""
+
+    target = "cubed.core.ops:map_blocks"
+    name = "cubed.core.ops:map_blocks[coerces-under-the-operands'-spec]"
+    props = ("C19",)
+
+    def configs(self, tier):
+        return [dict(numpy_at=i) for i in (0, 1)]
+
+    def install(self, c):
+        S = _gb.install(c)
+        it = c.interp
+        Arr = it.world.lookup("cubed.array_api.array_object:Array")
+
+        def asarray(it_, fn, a, k):
+            obj = a[0]
+            if hasattr(obj, "cls") and obj.cls is Arr:
+                return obj
+            sp = k.get("spec")
+            if sp is None:
+                sp = it_.call(it_.world.lookup("cubed.spec:spec_from_config"), [None], {})
+            grids = tuple(g for g in c.x.chunks)
+            return _build_array(it_, _fresh_name(it_), obj.shape, grids, obj.dtype, sp)
+
+        S["cubed.array_api.creation_functions:asarray"] = asarray
+
+    def setup(self, c):
+        from contracts.c01_reduce import ElemwiseFn
+
+        c.S = _make_spec(c, "explicit")
+        x = _sym_array(c, "x", 1, spec=c.S)
+        c.x = x
+        npl = _NPLike(x.shape, x.dtype)
+        args = (npl, x) if c.cfg["numpy_at"] == 0 else (x, npl)
+        return (ElemwiseFn("f"), *args), dict(dtype=x.dtype)
+
+    def ensures(self, c, a, k, res):
+        yield "result-carries-the-operands'-spec", res.spec is c.S
+
+    def raises(self, c, a, k, e):
+        return None  # accepted under every resource configuration: any exception is a violation
+
+    def replay(self, cfg, model, ob):
+        return f"""
+import tempfile, shutil
+import numpy as np
+import cubed, cubed.array_api as xp
+d = tempfile.mkdtemp(prefix="pyvc-replay-")
+try:
+    spec = cubed.Spec(work_dir=d, allowed_mem="500MB", reserved_mem="1MB")
+    x = xp.asarray(np.arange(6.0), chunks=2, spec=spec)
+    n = np.ones(6)
+    args = (n, x) if {cfg['numpy_at']} == 0 else (x, n)
+    try:
+        r = cubed.map_blocks(lambda p, q: p + q, *args, dtype=x.dtype)
+        got = r.compute()
+        reproduced = not np.array_equal(got, np.arange(6.0) + 1) or r.spec is not spec
+        detail = f"accepted; values {{got.tolist()}}"
+    except Exception as e:
+        reproduced, detail = True, f"rejected under an explicit Spec: {{type(e).__name__}}: {{str(e)[:200]}}"
+finally:
+    shutil.rmtree(d, ignore_errors=True)
+"""
